@@ -150,7 +150,7 @@ class Lexer:
                 else:
                     # Unknown escape - just use the character
                     result.append(escape)
-            elif ch == "\n":
+            elif ch == "\n" or ch == "\r":
                 raise JSSyntaxError(
                     "Unterminated string literal", self.line, self.column
                 )
